@@ -6,16 +6,16 @@ import os
 PROPS = {
     'C01': ['DISPATCH', 'ACDUAL', 'FINCHK', 'SYMIDX', 'ORDTOTAL', 'FRAMERESET', 'MERGE', 'CACHELIFE', 'SIBLING', 'ERASER', 'FORWARD', 'KEYFIELDS', 'QUEUEENDS', 'CLIOPT', 'FLAGRESET', 'DRAIN', 'INSETLABEL'],
     'C02': ['UNIONCONTRIB', 'PRODUCT', 'WORKLIST', 'COW', 'FORWARD', 'UNIONTRANSL', 'ACCRET', 'SCRATCHRESET', 'NULLPARAM', 'TENTATIVE', 'REINDEXALL', 'ALPHASRC', 'DRAIN'],
-    'C03': ['SIZEEQ', 'WORKLIST', 'DRAIN', 'COW', 'FORWARD', 'COUNTGUARD', 'USEMOVE', 'ACCRET', 'KEPTRULES', 'COLLECTALL', 'ALPHASRC'],
+    'C03': ['SIZEEQ', 'WORKLIST', 'DRAIN', 'COW', 'FORWARD', 'COUNTGUARD', 'USEMOVE', 'ACCRET', 'KEPTRULES', 'COLLECTALL', 'ALPHASRC', 'COPYALL'],
     'C04': ['KIND', 'SIMMAP', 'COPYALL', 'LOOPBOUND', 'TUPLEPOS', 'FORWARD', 'KEYFIELDS', 'CLIOPT', 'INSETLABEL', 'PREPASS', 'USEDSTATES', 'REFSTABLE'],
     'C05': ['SIMMAP', 'KIND', 'LOOPBOUND', 'DRAIN', 'WORKLIST', 'SIZEEQ', 'COW', 'FORWARD', 'ACCRET', 'INSETLABEL', 'COPYALL', 'USEDSTATES', 'ALPHASRC'],
     'C07': ['DISPATCH', 'ACDUAL', 'FINCHK', 'MERGE', 'PARALLEL', 'COLLECTALL', 'CACHELIFE', 'SIBLING', 'FORWARD', 'QUEUEENDS', 'CLIOPT', 'SCRATCHRESET', 'GENPRE', 'DRAIN', 'FLAGRESET'],
     'C08': ['UNIONCONTRIB', 'PRODUCT', 'WORKLIST', 'DRAIN', 'INIT', 'COLLECTALL', 'ARITY', 'TUPLEPOS', 'LOADROLE', 'FORWARD', 'USEMOVE', 'UNIONTRANSL', 'ACCRET', 'SCRATCHRESET', 'NULLPARAM', 'REINDEXALL', 'BACKTRACK'],
     'C09': ['DISPATCH', 'ACDUAL', 'FINCHK', 'MEMO', 'HASHEQ', 'ORDTOTAL', 'FORWARD', 'ADDRKEY', 'QUEUEENDS', 'CLIOPT', 'FLAGRESET', 'DRAIN', 'ITERINVAL', 'CONGRMATCH', 'REFSTABLE'],
     'C10': ['UNIONCONTRIB', 'PRODUCT', 'PAIRFIELD', 'FINCHK', 'WORKLIST', 'DRAIN', 'PARAMPATH', 'COW', 'FORWARD', 'NFAOPS', 'UNIONTRANSL', 'ACCRET', 'SCRATCHRESET', 'COLLECTALL', 'NULLPARAM', 'REINDEXALL', 'ALPHASRC'],
-    'C11': ['COW', 'CLEARALL', 'HASHCONS', 'CACHELIFE', 'ALPHASRC', 'DISPATCH'],
+    'C11': ['COW', 'CLEARALL', 'HASHCONS', 'CACHELIFE', 'ALPHASRC', 'DISPATCH', 'COPYALL'],
     'C13': ['TEXT', 'LOADROLE', 'PARAMPATH', 'PAIRFIELD', 'FORWARD', 'SCRATCHRESET', 'NOTHROW', 'COLLECTALL', 'DRAIN', 'BACKTRACK'],
-    'C12': ['COW', 'HASHCONS', 'ITER', 'NONEMPTY', 'CLEARALL', 'PARAMPATH', 'USEDSTATES'],
+    'C12': ['COW', 'HASHCONS', 'ITER', 'NONEMPTY', 'CLEARALL', 'PARAMPATH', 'USEDSTATES', 'COPYALL'],
     'C14': ['KIND', 'COW', 'FORWARD', 'SCRATCHRESET', 'HASHCONS', 'REINDEXALL', 'ALPHASRC', 'SIZEEQ'],
     'C15': ['FINCHK', 'WORKLIST', 'DRAIN', 'KIND', 'HASHCONS', 'COW', 'FORWARD', 'COUNTGUARD', 'ACCRET', 'KEPTRULES', 'COLLECTALL', 'ALPHASRC'],
     'C16': ['INSETLABEL', 'COPYALL', 'STALESIZE', 'QUEUEENDS', 'DRAIN', 'COLLECTALL', 'LOOPBOUND', 'INIT', 'ITERINVAL'],
@@ -62,6 +62,7 @@ FILTER = {
     ('C12', 'COW'): r'explicit_tree',
     ('C09', 'REFSTABLE'): r'macrostate_cache|explicit_finite', ('C04', 'REFSTABLE'): r'transl_weak|explicit_tree_transl',
     ('C14', 'SIZEEQ'): r'explicit_tree',
+    ('C03', 'COPYALL'): r'explicit_tree', ('C11', 'COPYALL'): r'explicit_', ('C12', 'COPYALL'): r'explicit_tree',
     ('C17', 'COPYALL'): r'mtbdd/', ('C18', 'COPYALL'): r'mtbdd/',
     ('C02', 'ALPHASRC'): r'explicit_tree_(isect|union)', ('C03', 'ALPHASRC'): r'explicit_tree_(useless|unreach)', ('C05', 'ALPHASRC'): r'explicit_tree_(useless|unreach)|explicit_tree_aut_core', ('C10', 'ALPHASRC'): r'explicit_finite', ('C15', 'ALPHASRC'): r'explicit_tree_(candidate|unreach)', ('C14', 'ALPHASRC'): r'explicit_tree_aut_core',
     ('C16', 'COPYALL'): r'explicit_lts|splitting_relation|shared_counter|shared_list|caching_allocator|smart_set|binary_relation', ('C16', 'STALESIZE'): r'explicit_lts|splitting_relation|shared_counter|shared_list|caching_allocator|smart_set|binary_relation', ('C16', 'QUEUEENDS'): r'explicit_lts|splitting_relation|shared_counter|shared_list|caching_allocator|smart_set|binary_relation', ('C16', 'DRAIN'): r'explicit_lts|splitting_relation|shared_counter|shared_list|caching_allocator|smart_set|binary_relation', ('C16', 'COLLECTALL'): r'explicit_lts|splitting_relation|shared_counter|shared_list|caching_allocator|smart_set|binary_relation', ('C16', 'LOOPBOUND'): r'explicit_lts|splitting_relation|shared_counter|shared_list|caching_allocator|smart_set|binary_relation', ('C16', 'INIT'): r'explicit_lts|splitting_relation|shared_counter|shared_list|caching_allocator|smart_set|binary_relation', ('C16', 'ITERINVAL'): r'explicit_lts|splitting_relation|shared_counter|shared_list|caching_allocator|smart_set|binary_relation',
